@@ -90,7 +90,7 @@ def _nontrivial(tr):
 
 def _tlc(chk, name, cfg, dump=None, expect_violation=None):
     res = tlc.run(SPECS / "server/MC_EventLog.tla", SPECS / ("server/MC_EventLog_%s.cfg" % cfg), workdir=chk.work,
-                  deadlock=False, dump=dump, workers=4 if (chk.quick or expect_violation) else 16,
+                  deadlock=False, dump=dump, workers=1 if expect_violation else (4 if chk.quick else 16),
                   extra=("-fp", "1"))          # fixed fingerprint function: state ids in the dump are reproducible
     chk.record_tlc("EventLog/" + name, res, count=expect_violation is None)
     if expect_violation:
